@@ -8,8 +8,10 @@ cache. After every print the text is parsed and compared node by node with a DFS
 that depends on the current graph only - any residue of an earlier (or aborted) print shows.
 """
 import ast
+import collections
 import re
 import sys
+import types
 import warnings
 
 from simkit import core
@@ -20,6 +22,8 @@ RUN_TIMEOUT = 25.0
 CHUNK = 100
 TIERS = {'quick': dict(runs=60000, budget_s=70), 'thorough': dict(runs=2500000, budget_s=1500)}
 KINDS = ['list', 'dict', 'tuple', 'box']
+# bundled container printers that take part in cycle detection too (seeded histories only)
+MORE_KINDS = ['deque', 'odict', 'ns', 'mylist', 'mydict', 'ddict']
 RULE = ('run index < K enumerates ALL graphs with <= 3 nodes over the node kinds list / dict / tuple-holding-a-list / '
         'Box and every subset of the n*n possible edges (self loops included); each is printed from every root, '
         're-printed in another order, and (if it has a Box) printed again after an aborted print. Thorough adds all '
@@ -112,7 +116,8 @@ def generate(rng, idx, tier):
               abort=rng.choice([0, 1, 2]), cc=rng.choice([0, 1]))
     bag = [k for k, c in sorted(wk.items()) for _ in range(c)]
     p_wrap = rng.choice([0.0, 0.0, 0.15, 0.4])
-    kinds_w = rng.choice([KINDS, KINDS + ['box'], ['list', 'dict'], ['tuple', 'box', 'list']])
+    kinds_w = rng.choice([KINDS, KINDS + ['box'], ['list', 'dict'], ['tuple', 'box', 'list'],
+                          KINDS + MORE_KINDS, MORE_KINDS + ['list'], MORE_KINDS])
     for _ in range(rng.randrange(4, 26)):
         k = rng.choice(bag)
         if k == 'new':
@@ -154,20 +159,29 @@ def _unwrap(v):
     return v
 
 
+class ML(list):
+    pass
+
+
+class MD(dict):
+    pass
+
+
 def kids(n):
     n = _unwrap(n)
-    if isinstance(n, list):
+    if isinstance(n, (list, tuple, collections.deque)):
         return list(n)
     if isinstance(n, dict):
         return list(n.values())
-    if isinstance(n, tuple):
-        return list(n)
+    if isinstance(n, types.SimpleNamespace):
+        return [vars(n)[k] for k in sorted(vars(n))]
     if isinstance(n, Box):
         return list(n.kids)
     return None
 
 
 def expect(n, path, budget):
+    """reference: DFS with an explicit path set; canonical tree [typename, keys-or-None, children]"""
     n = _unwrap(n)
     ks = kids(n)
     budget[0] -= 1
@@ -181,13 +195,25 @@ def expect(n, path, budget):
     ch = [expect(k, path, budget) for k in ks]
     path.discard(id(n))
     if isinstance(n, dict):
-        return ['dict', list(n.keys()), ch]
-    return [type(n).__name__, ch]
+        return [type(n).__name__, list(n.keys()), ch]
+    if isinstance(n, types.SimpleNamespace):
+        return [type(n).__name__, sorted(vars(n)), ch]
+    return [type(n).__name__, None, ch]
 
 
 def parse(text):
     src = MARK.sub(lambda m: '__R_%s_%s' % (m.group(1), m.group(2)), text)
     tree = ast.parse('(' + src + '\n)', mode='eval').body
+
+    def seq(e):
+        if not isinstance(e, ast.List):
+            raise ValueError('expected a list literal: ' + ast.dump(e)[:80])
+        return [conv(x) for x in e.elts]
+
+    def mapping(name, e):
+        if not isinstance(e, ast.Dict):
+            raise ValueError('expected a dict literal: ' + ast.dump(e)[:80])
+        return [name, [ast.literal_eval(k) for k in e.keys], [conv(x) for x in e.values]]
 
     def conv(e):
         if isinstance(e, ast.Constant):
@@ -196,14 +222,30 @@ def parse(text):
             _, _, _, t, i = e.id.split('_')
             return ['mark', t, int(i)]
         if isinstance(e, ast.List):
-            return ['list', [conv(x) for x in e.elts]]
+            return ['list', None, [conv(x) for x in e.elts]]
         if isinstance(e, ast.Tuple):
-            return ['tuple', [conv(x) for x in e.elts]]
+            return ['tuple', None, [conv(x) for x in e.elts]]
         if isinstance(e, ast.Dict):
-            return ['dict', [ast.literal_eval(k) for k in e.keys], [conv(x) for x in e.values]]
+            return mapping('dict', e)
         if isinstance(e, ast.Call):
-            return ['Box', [conv(x) for x in e.args]]
-        raise ValueError(ast.dump(e))
+            f = e.func
+            name = f.attr if isinstance(f, ast.Attribute) else getattr(f, 'id', '?')
+            if name == 'Box':
+                return ['Box', None, [conv(x) for x in e.args]]
+            if name == 'deque':
+                return ['deque', None, seq(e.args[0])]
+            if name == 'ML':
+                return ['ML', None, seq(e.args[0]) if e.args else []]
+            if name == 'MD':
+                return mapping('MD', e.args[0]) if e.args else ['MD', [], []]
+            if name == 'defaultdict':
+                return mapping('defaultdict', e.args[1])
+            if name == 'OrderedDict':
+                pairs = e.args[0].elts
+                return ['OrderedDict', [ast.literal_eval(p.elts[0]) for p in pairs], [conv(p.elts[1]) for p in pairs]]
+            if name == 'SimpleNamespace':
+                return ['SimpleNamespace', [k.arg for k in e.keywords], [conv(k.value) for k in e.keywords]]
+        raise ValueError(ast.dump(e)[:120])
     return conv(tree)
 
 
@@ -243,8 +285,21 @@ def execute(spec):
             elif kind == 'tuple':
                 leaf[0] += 1
                 nodes.append(([], leaf[0]))
+            elif kind == 'deque':
+                nodes.append(collections.deque())
+            elif kind == 'odict':
+                nodes.append(collections.OrderedDict())
+            elif kind == 'ns':
+                nodes.append(types.SimpleNamespace())
+            elif kind == 'mylist':
+                nodes.append(ML())
+            elif kind == 'mydict':
+                nodes.append(MD())
+            elif kind == 'ddict':
+                nodes.append(collections.defaultdict(list))
             else:
                 nodes.append(Box())
+            bump('node_' + kind)
             trace.append(op)
         elif k == 'edge':
             if not nodes:
@@ -262,10 +317,12 @@ def execute(spec):
                 WRAPPED[id(w)] = (w, c)       # keeps the wrapper alive, so its id stays unique
                 c = w
                 bump('commented_edges')
-            if isinstance(t, list):
+            if isinstance(t, (list, collections.deque)):
                 t.append(c)
             elif isinstance(t, dict):
-                t['k%d' % len(t)] = c
+                t['k%02d' % len(t)] = c
+            elif isinstance(t, types.SimpleNamespace):
+                setattr(t, 'k%02d' % len(vars(t)), c)
             else:
                 t.kids.append(c)
             trace.append(op)
@@ -275,8 +332,13 @@ def execute(spec):
             t = tgt(nodes[op[1] % len(nodes)])
             if isinstance(t, list) and t:
                 t.pop(op[2] % len(t))
+            elif isinstance(t, collections.deque) and t:
+                t.rotate(-(op[2] % len(t)))
+                t.popleft()
             elif isinstance(t, dict) and t:
                 t.pop(list(t)[op[2] % len(t)])
+            elif isinstance(t, types.SimpleNamespace) and vars(t):
+                delattr(t, sorted(vars(t))[op[2] % len(vars(t))])
             elif isinstance(t, Box) and t.kids:
                 t.kids.pop(op[2] % len(t.kids))
             trace.append(op)
